@@ -176,7 +176,7 @@ class OsuMapMeta(
             "",
             "[General]",
             f"AudioFilename: {self.audio_file_name}",
-            f"AudioLeadIn: {self.audio_lead_in:g}",
+            f"AudioLeadIn: {self.audio_lead_in:.15g}",
             f"PreviewTime: {int(self.preview_time)}",
             f"Countdown: {int(self.countdown)}",
             f"SampleSet: {OsuSampleSet.to_string(self.sample_set)}",
@@ -187,10 +187,10 @@ class OsuMapMeta(
             f"WidescreenStoryboard: {int(self.widescreen_storyboard)}",
             "",
             "[Editor]",
-            f"DistanceSpacing: {self.distance_spacing:g}",
-            f"BeatDivisor: {self.beat_divisor:g}",
-            f"GridSize: {self.grid_size:g}",
-            f"TimelineZoom: {self.timeline_zoom:g}",
+            f"DistanceSpacing: {self.distance_spacing:.15g}",
+            f"BeatDivisor: {self.beat_divisor:.15g}",
+            f"GridSize: {self.grid_size:.15g}",
+            f"TimelineZoom: {self.timeline_zoom:.15g}",
             "",
             "[Metadata]",
             f"Title:{unidecode(self.title)}",
@@ -205,12 +205,12 @@ class OsuMapMeta(
             f"BeatmapSetID:{self.beatmap_set_id}",
             "",
             "[Difficulty]",
-            f"HPDrainRate:{self.hp_drain_rate:g}",
-            f"CircleSize:{self.circle_size:g}",
-            f"OverallDifficulty:{self.overall_difficulty:g}",
-            f"ApproachRate:{self.approach_rate:g}",
-            f"SliderMultiplier:{self.slider_multiplier:g}",
-            f"SliderTickRate:{self.slider_tick_rate:g}",
+            f"HPDrainRate:{self.hp_drain_rate:.15g}",
+            f"CircleSize:{self.circle_size:.15g}",
+            f"OverallDifficulty:{self.overall_difficulty:.15g}",
+            f"ApproachRate:{self.approach_rate:.15g}",
+            f"SliderMultiplier:{self.slider_multiplier:.15g}",
+            f"SliderTickRate:{self.slider_tick_rate:.15g}",
             "",
             "[Events]",
             "//Background and Video events",
